@@ -99,7 +99,7 @@ if ok:
         res = {}
         for tier in (["quick"] if quick_only else ["quick", "thorough"]):
             t0 = time.time()
-            rc, o = sh("cd %s && VERIF_REPO=%s VERIF_DIR=%s bin/verif check %s --tier %s" % (vcopy, wt2, vcopy, pid, tier), timeout=3600)
+            rc, o = sh("cd %s && VERIF_NO_COQCHK=1 VERIF_REPO=%s VERIF_DIR=%s bin/verif check %s --tier %s" % (vcopy, wt2, vcopy, pid, tier), timeout=3600)
             viol = [l for l in o.splitlines() if l.startswith("VIOLATION")]
             res[tier] = dict(exit=rc, violations=[v.replace(vcopy, "/verif") for v in viol[:5]], wall_s=round(time.time() - t0, 1))
             if viol:
